@@ -329,8 +329,12 @@ func (api *API) mapDecodeInterface(
 		return ierrors.Wrapf(ErrInterfaceUnderlyingTypeNotRegistered, "object code: %d, interface: %s", objectCode, valueType)
 	}
 
+	// mirrors the encoder: the object is written with the settings registered for its type, not with those of the field
+	// that holds the interface (whose key names the field, not a member of the object)
+	objectTypeSettings, _ := api.typeSettingsRegistry.GetByType(objectType)
+
 	objectValue := reflect.New(objectType).Elem()
-	if err := api.mapDecode(ctx, m, objectValue, ts, opts); err != nil {
+	if err := api.mapDecode(ctx, m, objectValue, objectTypeSettings, opts); err != nil {
 		return ierrors.WithStack(err)
 	}
 	value.Set(objectValue)
